@@ -46,6 +46,14 @@ def main(tier, seed):
                        "cross-device copy mode of `go build -o` is covered by the model (CopyMode=TRUE) only"]
     for cfg in ("Linker-c17-copy.cfg", "Linker-c17-rename.cfg"):
         chk.add_tlc(tlc_must_pass("Linker", cfg, timeout=900))
+    # the whole process tree: two concurrent commands over shared TMPDIR / caches (Pipeline.tla); a shared
+    # directory with a fixed name (what-if) must be rejected
+    chk.add_tlc(tlc_must_pass("PipelineMC", "Pipeline-thorough.cfg" if tier == "thorough" else "Pipeline-c17.cfg", timeout=1800))
+    rw = tlc("PipelineMC", "Pipeline-mutant-fixedname.cfg", timeout=900)
+    chk.add_tlc(rw)
+    chk.extra["pipeline_whatif_fixed_dir_name_violates"] = rw.violated
+    if not rw.violated:
+        raise Inconclusive("Pipeline.tla what-if (fixed shared directory name) is no longer rejected")
 
     work = mkscratch("c17")
     build_garble("verif")
